@@ -275,9 +275,15 @@ func (b *Broker) RegisterNode(id NodeID, node Node, opt ...Option) error {
 // This is useful if RegisterNode was used successfully prior to a failed RegisterPipeline call
 // referencing those nodes
 func (b *Broker) RemoveNode(ctx context.Context, id NodeID) error {
+	// The node is closed after the lock has been released, since closing a
+	// node may call back into the broker (e.g. to flush gated events).
 	b.lock.Lock()
-	defer b.lock.Unlock()
-	return b.removeNode(ctx, id, false)
+	node, err := b.detachNode(id, false)
+	b.lock.Unlock()
+	if err != nil {
+		return err
+	}
+	return closeNode(ctx, id, node)
 }
 
 // removeNode will remove a node from the broker, if it is not currently  in use.
@@ -286,33 +292,53 @@ func (b *Broker) RemoveNode(ctx context.Context, id NodeID) error {
 // The force option can be used to decrement the count for the node if it's still in use by pipelines
 // This function assumes that the caller holds a lock
 func (b *Broker) removeNode(ctx context.Context, id NodeID, force bool) error {
+	node, err := b.detachNode(id, force)
+	if err != nil {
+		return err
+	}
+	return closeNode(ctx, id, node)
+}
+
+// detachNode does the bookkeeping of removeNode without closing the node: it
+// returns the node which is no longer registered and must be closed by the
+// caller (nil when the node is still referenced by other pipelines).
+// This function assumes that the caller holds a lock
+func (b *Broker) detachNode(id NodeID, force bool) (Node, error) {
 	if id == "" {
-		return fmt.Errorf("unable to remove node, node ID cannot be empty: %w", ErrInvalidParameter)
+		return nil, fmt.Errorf("unable to remove node, node ID cannot be empty: %w", ErrInvalidParameter)
 	}
 
 	nodeUsage, ok := b.nodes[id]
 	if !ok {
-		return fmt.Errorf("%w: %q", ErrNodeNotFound, id)
+		return nil, fmt.Errorf("%w: %q", ErrNodeNotFound, id)
 	}
 
 	// if force is passed, then decrement the count for this node instead of failing
 	if nodeUsage.referenceCount > 0 && !force {
-		return fmt.Errorf("cannot remove node, as it is still in use by 1 or more pipelines: %q", id)
+		return nil, fmt.Errorf("cannot remove node, as it is still in use by 1 or more pipelines: %q", id)
 	}
 
-	var err error
 	switch nodeUsage.referenceCount {
 	case 0, 1:
-		nc := NewNodeController(nodeUsage.node)
-		if err = nc.Close(ctx); err != nil {
-			err = fmt.Errorf("unable to close node ID %q: %w", id, err)
-		}
 		delete(b.nodes, id)
+		return nodeUsage.node, nil
 	default:
 		nodeUsage.referenceCount--
 	}
 
-	return err
+	return nil, nil
+}
+
+// closeNode closes a node which has been detached from the broker.
+func closeNode(ctx context.Context, id NodeID, node Node) error {
+	if node == nil {
+		return nil
+	}
+	nc := NewNodeController(node)
+	if err := nc.Close(ctx); err != nil {
+		return fmt.Errorf("unable to close node ID %q: %w", id, err)
+	}
+	return nil
 }
 
 // PipelineID is a string that uniquely identifies a Pipeline within a given EventType.
@@ -464,31 +490,63 @@ func (b *Broker) RemovePipelineAndNodes(ctx context.Context, t EventType, id Pip
 		return false, errors.New("pipeline ID cannot be empty")
 	}
 
-	b.lock.Lock()
-	defer b.lock.Unlock()
-
-	g, ok := b.graphs[t]
-	if !ok {
-		return false, fmt.Errorf("no graph for EventType %s", t)
-	}
-
-	nodes, err := g.roots.Nodes(id)
+	detached, nodeErr, err := b.detachPipelineAndNodes(t, id)
 	if err != nil {
-		return false, fmt.Errorf("unable to retrieve all nodes referenced by pipeline ID %q: %w", id, err)
+		return false, err
 	}
 
-	g.roots.Delete(id)
-
-	var nodeErr error
-
-	for _, nodeID := range nodes {
-		err = b.removeNode(ctx, nodeID, true)
-		if err != nil {
+	// The nodes are closed after the lock has been released, since closing a
+	// node may call back into the broker (e.g. to flush gated events).
+	for _, d := range detached {
+		if err := closeNode(ctx, d.id, d.node); err != nil {
 			nodeErr = multierror.Append(nodeErr, err)
 		}
 	}
 
 	return true, nodeErr
+}
+
+// detachedNode is a node which is no longer registered and needs to be closed.
+type detachedNode struct {
+	id   NodeID
+	node Node
+}
+
+// detachPipelineAndNodes removes the pipeline and unregisters those of its
+// nodes which are not referenced by other pipelines. It returns the nodes the
+// caller must close, any errors encountered while detaching nodes and finally
+// an error when a precondition failed (and nothing has been removed).
+func (b *Broker) detachPipelineAndNodes(t EventType, id PipelineID) ([]detachedNode, error, error) {
+	b.lock.Lock()
+	defer b.lock.Unlock()
+
+	g, ok := b.graphs[t]
+	if !ok {
+		return nil, nil, fmt.Errorf("no graph for EventType %s", t)
+	}
+
+	nodes, err := g.roots.Nodes(id)
+	if err != nil {
+		return nil, nil, fmt.Errorf("unable to retrieve all nodes referenced by pipeline ID %q: %w", id, err)
+	}
+
+	g.roots.Delete(id)
+
+	var nodeErr error
+	detached := make([]detachedNode, 0, len(nodes))
+
+	for _, nodeID := range nodes {
+		node, err := b.detachNode(nodeID, true)
+		if err != nil {
+			nodeErr = multierror.Append(nodeErr, err)
+			continue
+		}
+		if node != nil {
+			detached = append(detached, detachedNode{id: nodeID, node: node})
+		}
+	}
+
+	return detached, nodeErr, nil
 }
 
 // SetSuccessThreshold sets the success threshold per EventType.  For the
